@@ -23,6 +23,7 @@ from lyxlib import (Script, results, rc, payload, PARSE_STRICT, PARSE_ONLY, VAL_
 from props.comps import Comp
 from props.comps_tree import stage1, pseudo
 from props.oracles import xml_tree
+import props.oracles as oracles_mod
 from vlib import hexs
 
 NCWD = "urn:ietf:params:xml:ns:yang:ietf-netconf-with-defaults default"
@@ -141,6 +142,38 @@ def rand_path(rng, m, f=None):
 
 
 PRINT_MODES = (WD_EXPLICIT, WD_TRIM, WD_ALL, WD_ALL_TAG, WD_IMPL_TAG)
+
+
+class ValidateIdemC07(oracles_mod.ValidateIdem):
+    """the API oracle of C07 (tools/props/oracles.py) with the vdiff-np-container classification also recognising the case
+    in which the tree after validation is EMPTY (the auto-deleted default container was the only node left)"""
+
+    @staticmethod
+    def only_np_diff(a, b):
+        sa = [x for x in a.split(";") if x and x != "empty" and ":i:" not in x]
+        sb = [x for x in b.split(";") if x and x != "empty" and ":i:" not in x]
+        return sa == sb
+
+    def judge(self, line, out):
+        j = super().judge(line, out)
+        if not j or j[0] is not None or "(round " not in j[1]:
+            return j
+        # two more symptoms of listed findings, seen through the API: locate the round the oracle complains about
+        r = results(out)
+        cmds = line.split("\t")[1:]
+        rnd = int(j[1].split("(round ")[1].split(")")[0])
+        ks = [k for k, c in enumerate(cmds) if c.startswith("dup t0 t1")]
+        if rnd > len(ks) or ks[rnd - 1] + 6 >= len(r):
+            return j
+        k = ks[rnd - 1]
+        if "second validation changed the tree" in j[1] and r[k + 4].startswith("3/"):
+            return ("vdiff-np-recreate", j[1] + ": the second validation returns LY_EINVAL while building its diff")
+        if "non-empty change set" in j[1]:
+            segs = [x for x in r[k + 6].split(";") if x]
+            if segs and all(":i:" in x for x in segs):
+                # an empty default NP container is auto-deleted (not recorded) and created again (recorded)
+                return ("vdiff-np-container", j[1] + ": only (re)creations of non-presence containers: " + r[k + 6][:200])
+        return j
 
 
 class DfltModel(Comp):
@@ -443,7 +476,8 @@ class DfltModel(Comp):
                     return (t, "the validated tree is not the normal form of its explicit content (%s): %s"
                             % (",".join(sorted(why)), a[i - 1][:300]))
                 if kv["A"] != "1":
-                    t = "vdiff-np-container" if (kv["AS"] == "1" and "gone" in kv["S"]) else None
+                    # replaying the change list together with the unrecorded NP container deletions gives the tree after
+                    t = "vdiff-np-container" if (kv["AS"] == "1" and kv["S"] != "") else None
                     return (t, "the change set applied to the tree before validation does not give the tree after (%s)" % kv["S"])
                 return None
             if x.startswith("P") and " W=" in x and x.split(" W=")[0] == y:
@@ -474,7 +508,9 @@ class DfltModel(Comp):
                 return None
             if x[:2] in ("V0", "I0") and y[:2] == x[:2] and x.split(" # ")[0] == y.split(" # ")[0]:
                 # same tree, another change list
-                dx = set(x.split(" # ")[1].split(";")) ^ set(y.split(" # ")[1].split(";"))
+                from collections import Counter
+                cx, cy = Counter(x.split(" # ")[1].split(";")), Counter(y.split(" # ")[1].split(";"))
+                dx = set((cx - cy) + (cy - cx))
                 dnames = self.dupinst_names(line)
                 if dx and all(any(("/" + sg).split("[")[0].split("=")[0].endswith("/" + nm) for sg in d.split(" ", 1)[-1].split("/")
                                   for nm in dnames) for d in dx):
